@@ -694,6 +694,9 @@ func (r *Run) opAuthorizePAR(st Step) {
 	} else if len(res.Fragment) > 0 {
 		delivered = "fragment"
 	}
+	if mode == SimResponseMode {
+		mode = "form_post" // the custom mode delivers like a form post
+	}
 	if delivered != mode {
 		r.violate("C17", "pushed-value-overridden", "response_mode", "%s: parameters delivered via %s, pushed response_mode was %q", desc, delivered, mode)
 	}
